@@ -91,6 +91,37 @@ def opt_two_way(values, spec):
     return objective_value(spec, vec)[0]
 
 
+def opt_three_way(values, spec):
+    """Optimum of minmax / maxmin / diff for 3 bins and any number of items, by a two-dimensional subset-sum table: row a is a bitset
+    of the sums b that a second bin can have while a first bin has sum a.  Every partition can be labelled so that the first bin is
+    the smallest and the second the middle one, so rows a <= total/3 and bits b <= total/2 are enough; for a fixed smallest sum a all
+    three objectives are best at the largest b with a <= b <= (total-a)/2."""
+    total = sum(values)
+    amax, bmask = total // 3, (1 << (total // 2 + 1)) - 1
+    rows = [0] * (amax + 1)
+    rows[0] = 1
+    for v in values:
+        new = list(rows)
+        for a in range(amax + 1):
+            r = rows[a]
+            if r:
+                new[a] |= (r << v) & bmask
+                if a + v <= amax:
+                    new[a + v] |= r
+        rows = new
+    best = None
+    sense = objective_value(spec, [0])[1]
+    for a in range(amax + 1):
+        low = rows[a] & ((1 << ((total - a) // 2 + 1)) - 1)
+        b = low.bit_length() - 1
+        if b < a:
+            continue
+        val = objective_value(spec, (a, b, total - a - b))[0]
+        if best is None or (val < best if sense == "min" else val > best):
+            best = val
+    return best
+
+
 def opt(values, k, spec):
     """Optimal value of the objective over all partitions of values into k bins."""
     if k == 2 and len(values) > 10:
@@ -362,6 +393,13 @@ def validate_oracles(which=("partition", "balanced", "packing", "cover", "water"
                     sense = objective_value(spec, [0])[1]
                     if opt_two_way(values, spec) != (min(vals) if sense == "min" else max(vals)):
                         raise HarnessError(f"opt_two_way oracle wrong on {values},{spec}")
+            for values in ([3, 1, 4, 1, 5, 9, 2, 6], [7, 7, 7, 1], [0, 0, 5], [10, 1, 1, 1, 1, 2], [13, 8, 5, 3, 2, 1, 1], [4], [2, 2],
+                           [9, 8, 7, 6, 5, 4, 3, 2, 1], [100, 1, 1], [6, 6, 6, 6, 6, 6, 1]):
+                for spec in ("minmax", "maxmin", "diff"):
+                    vals = [objective_value(spec, s)[0] for s in sum_vectors(values, 3)]
+                    sense = objective_value(spec, [0])[1]
+                    if opt_three_way(values, spec) != (min(vals) if sense == "min" else max(vals)):
+                        raise HarnessError(f"opt_three_way oracle wrong on {values},{spec}")
             # planted: k bins of equal sum
             if opt([5, 3, 2, 4, 4, 2, 7, 3], 3, "diff") != 0 or opt([5, 3, 2, 4, 4, 2, 7, 3], 3, "minmax") != 10:
                 raise HarnessError("opt oracle wrong on planted instance")
